@@ -343,6 +343,11 @@ def mon_c08(v: View) -> List[dict]:
                      f"scheduler blocks at {t} ({kind} wait on {sorted(pending_now)}) with {len(inflight)}/{mc} in flight while {[v.ids[m] for m in rdy]} ready",
                      after_async_wait=after_async, partial=partial, wait_kind=kind))
 
+    for t_, nid_, kind_ in not_started_at_waits(v):
+        if stop is None or t_ <= stop:
+            out.append(V("dispatched_not_running", f"scheduler blocks at {t_} while {nid_} (already dispatched) is not running although fewer than {mc} nodes run",
+                         node=nid_))
+            break
     t = 0
     n = len(tr)
     while t < n:
@@ -373,7 +378,7 @@ def mon_c08(v: View) -> List[dict]:
             if j >= 0:
                 rest = {x for x in tr[j][3] if x not in observed}
                 if rest:
-                    check(t, rest, tr[j][1], False, True)
+                    check(t + 1, rest, tr[j][1], False, True)  # just AFTER this completion has been observed
         elif k == "done":
             observed.update(e[2])
             if e[1] == "a":
@@ -385,9 +390,43 @@ def mon_c08(v: View) -> List[dict]:
 # ------------------------------------------------------------------------------------------- C09
 
 
+def not_started_at_waits(v: View) -> List[tuple]:
+    """(t, node, kind): blocking waits entered while a node the scheduler already dispatched is not running although a
+    worker is free for it - an async-thread task that never got a turn of the loop before the loop thread blocked, or a
+    submission sitting in the queue of an undersized pool."""
+    out = []
+    mc = v.prog.mc
+    dispatched: Dict[str, int] = {}
+    entered: Set[str] = set()
+    exited: Set[str] = set()
+    for t, e in enumerate(v.trace):
+        k = e[0]
+        if k == "ensure" and e[1] is not None:
+            dispatched[e[1]] = t
+        elif k == "submit" and e[1] is not None:
+            dispatched.setdefault(e[1], t)
+        elif k == "enter":
+            entered.add(e[1])
+        elif k == "exit":
+            exited.add(e[1])
+        elif k == "wait" and e[3] and not e[4]:
+            running = [x for x in dispatched if x in entered and x not in exited]
+            waiting = [x for x in dispatched if x not in entered]
+            if waiting and len(running) < mc:
+                # an asyncio-future wait gives pending tasks their turn before anything is chosen: only thread waits block the loop
+                if e[1] == "t" or all(x in {y for y in e[3]} for x in waiting) is False:
+                    if e[1] == "t":
+                        out.append((t, waiting[0], e[1]))
+    return out
+
+
 def mon_c09(v: View) -> List[dict]:
     out = []
     oc = v.res.outcome
+    for t, nid, kind in not_started_at_waits(v):
+        out.append(V("starved_node", f"the scheduler blocks the invoking thread at {t} while {nid}, which it already dispatched, has not started and a worker is free: "
+                     f"if the awaited node needs {nid}'s completion order, the call never returns", node=nid))
+        break
     if oc == "spin":
         out.append(V("spin", f"scheduler loop spins with nothing happening: {v.res.exc}"))
     elif oc == "hang":
